@@ -107,6 +107,7 @@ def apply_op(x, op, depth):
             _, path, src, body = op
             if not leaf:
                 return "skip", "interior populate handled by C05"
+            src = {int(k): v for k, v in src.items()}       # (a replayed case comes back from JSON with string keys)
             g = build_fiber(src)
             i = 0
             for c, (z, a) in f << g:
@@ -133,19 +134,19 @@ def apply_op(x, op, depth):
             _, path, src = op
             if not leaf:
                 return "skip", "interior"
-            f.extend(build_fiber(src))
+            f.extend(build_fiber({int(k): v for k, v in src.items()}))
             return "ok", None
         if name == "fiber_iadd":
             _, path, src = op
             if not leaf:
                 return "skip", "interior"
-            f += build_fiber(src)
+            f += build_fiber({int(k): v for k, v in src.items()})
             return "ok", None
         if name == "fiber_imul":
             _, path, src = op
             if not leaf:
                 return "skip", "interior"
-            f *= build_fiber(src)
+            f *= build_fiber({int(k): v for k, v in src.items()})
             return "ok", None
     except REJECTIONS as e:
         return "rejected", type(e).__name__
